@@ -76,6 +76,14 @@ CHECKS = {
         text="From three seeded initial states (empty, a counter at 2^64-1, a counter at 0) and for 4 configurations (key prefix x default_noreply), all histories over ~110 events per state (every store verb, cas with remembered/zero/foreign token, get/gets/gat/gats/multi-gets, touch, delete(_many), incr/decr, flush_all with and without delay, set_many, clock advances 1 and 10; noreply default and explicit) on two keys chosen to collide if prefixing is wrong are explored breadth-first to depth 3 (quick) / 6 or fixpoint (thorough). Every transition executes the real client and compares its return value with AbstractCache and the server's contents with the abstract contents.",
         note=TB + "AbstractCache (vmc/abstractcache.py) encodes the documented contract; values grow to <=2 (thorough 3) bytes and counters to 3; beyond the depth cap states are not expanded (caps_hit).",
     ),
+    "C13": dict(
+        engine="E2-explicit-state-bfs",
+        level="model_checking",
+        technique="explicit-state BFS with canonical-state de-duplication over failure/recovery/time/traffic histories of a real HashClient under a virtual clock; trace properties folded into monitor state; recovery suffix executed from every reachable state",
+        design_ref="DESIGN.md section 3 / C13",
+        text="12 configurations (2-3 servers x retry_attempts 0/1/2 x ignore_exc) with retry_timeout=1, dead_timeout=6; events: operation (get, get_many, set_many; thorough also set, delete) on a key owned by server i, clock advance 1/2/7, server i starts failing (refused, reset; thorough also timeout) or recovers; BFS to depth 7 (2 servers) / 5 (3 servers), thorough 9 / 7. On every transition: contacts to a failing server <=2 per retry_timeout window and <= retry_attempts+2 per dead_timeout window, no eviction by a single failure when retries are configured, a never-failed owner is always contacted and answers correctly, keys of an evicted server are served inside the rotation, only the failing server's own error or 'all servers down' escapes (nothing with ignore_exc); from every new state: all healthy + two dead_timeout periods of traffic restores rotation and placement.",
+        note=TB + "Histories beyond the depth cap are not explored (no fixpoint: the monitors' contact ages keep the state space growing); failing = network-level failure.",
+    ),
 }
 
 PENDING = "check not built yet in this session; planned engine and oracle are in DESIGN.md section 3"
@@ -83,7 +91,7 @@ NOT_APPLICABLE = {f"C{i:02d}": PENDING for i in range(1, 21)}
 
 ENGINES = [
     {"name": "E2-explicit-state-bfs", "path": "checks/c09.py (pattern shared by C05, C11, C13, C19)",
-     "serves_properties": ["C05", "C09"],
+     "serves_properties": ["C05", "C09", "C13"],
      "kind_free_text": "explicit-state BFS: a state is the event history reaching it, rebuilt on fresh real objects; canonical form de-duplicates; every transition runs the implementation"},
     {"name": "input-enumerator", "path": "checks/c02.py, checks/c20.py (and c14, c15, c17, c18)",
      "serves_properties": ["C02", "C20"],
